@@ -1279,11 +1279,16 @@ func ruleOpt(c *Ctx) {
 		return
 	}
 	cellClosure := map[string]*ssa.Function{}
-	for _, ci := range callsIn(ww) {
+	// (the four cells may each be written by a helper of their own - writeTempo, writeMeter ... - that is handed the
+	// receiver: the whole region of writeWhenUpdated is looked at)
+	wwTr := c.plainTracer()
+	for _, rc := range c.regionCalls(ww, nil) {
+		ci := rc.call
 		if calleeName(ci.Common()) != "util.Opt.WhenUpdated" {
 			continue
 		}
-		cell, _, ok := loadedField(ci.Common().Args[0])
+		cellL := wwTr.trace(lval{ci.Common().Args[0], rc.fn, rc.chain})
+		cell, _, ok := loadedField(cellL.v)
 		if !ok {
 			continue
 		}
